@@ -13,6 +13,10 @@ import Props.C16_xml
 #print axioms SpyneModel.Props.C16history.flat_info_after_append
 #print axioms SpyneModel.Props.C16history.flat_info_after_insert
 #print axioms SpyneModel.Props.C16history.use_keeps_flat_info
+#print axioms SpyneModel.Props.C16history.find_map_name
+#print axioms SpyneModel.Props.C16history.decoder_member_table_knows_appended_member
+#print axioms SpyneModel.Props.C16history.ancestor_wire_names_known_to_subclass
+#print axioms SpyneModel.Props.C16history.own_wire_names_known
 #print axioms SpyneModel.Props.C16registry.subclass_in_base_namespace_is_registered
 #print axioms SpyneModel.Props.C16registry.regStep_keeps
 #print axioms SpyneModel.Props.C16xml.poly_roundtrip
